@@ -155,6 +155,19 @@ def _legacy_case(rng):
         # a variable that has the selected dimension on two axes (a covariance matrix): both are cut
         o = rng.choice([k for k in dl if k != n])
         spec['vars'].append(pfile._mkvar(rng, 'COV', rng.choice([[n, n], [n, o, n], [o, n, n]]), dl, 7, rng.random() < 0.3))
+    if rng.random() < 0.2 and len(dl) >= 2:
+        # another dimension whose name merely begins with the selected name (west_east / west_east_stag): only numbered
+        # companions (LAY, LAY1) are cut along
+        o = rng.choice([k for k in dl if k != n])
+        new = n + rng.choice(['_stag', 's', '_bnds'])
+        for d in spec['dims']:
+            if d[0] == o:
+                d[0] = new
+        for v in spec['vars']:
+            v['dims'] = [new if k == o else k for k in v['dims']]
+            if v['name'] == o:
+                v['name'] = new
+        dl = {d[0]: d[1] for d in spec['dims']}
     L = dl[n]
     form = rng.choice(['i', 'ab', 'abs', 'abs', 'abs'])
     if form == 'i':
@@ -178,6 +191,15 @@ def _twostep_case(rng):
                 first=[[rng.randrange(ny) for _ in range(n1)], [rng.randrange(nx) for _ in range(n1)]],
                 second=[[rng.randrange(nt) for _ in range(n2)], [rng.randrange(nz) for _ in range(n2)]],
                 named=rng.random() < 0.4)
+
+
+def _ndpoints_case(rng):
+    """the documented N-D form of the pointwise selection: index arrays of one 2-D shape and as many new dimension names:
+    the result is numpy's A[:, :, iy, ix], the new dimensions have the lengths of the index arrays' axes (oracle only)"""
+    nt, nz, ny, nx = rng.randint(1, 3), rng.randint(1, 2), rng.randint(2, 4), rng.randint(2, 5)
+    p, q = rng.randint(1, 3), rng.randint(2, 3)
+    return dict(kind='twostep', nd=True, sels=[], shape=[nt, nz, ny, nx], named=True, second=[[], []],
+                first=[[[rng.randrange(ny) for _ in range(q)] for _ in range(p)], [[rng.randrange(nx) for _ in range(q)] for _ in range(p)]])
 
 
 def _ioapi_case(rng):
@@ -212,6 +234,7 @@ def gen(rng, tier):
     out += [_npint_case(rng) for _ in range(n // 10)]
     out += [_legacy_case(rng) for _ in range(n // 8)]
     out += [_twostep_case(rng) for _ in range(n // 40)]
+    out += [_ndpoints_case(rng) for _ in range(max(2, n // 100))]
     out += [_ioapi_case(rng) for _ in range(n // 8)]
     return out
 
@@ -300,9 +323,12 @@ def impl(case):
         v[:] = np.arange(int(np.prod(case['shape']))).reshape(case['shape'])
         try:
             with lib.pnc_warnings():
-                g = f.sliceDimensions(y=case['first'][0], x=case['first'][1])
-                kw = dict(newdims=('P2',)) if case['named'] else {}
-                h = g.sliceDimensions(t=case['second'][0], z=case['second'][1], **kw)
+                if case.get('nd'):
+                    h = f.sliceDimensions(newdims=('PA', 'PB'), y=np.array(case['first'][0]), x=np.array(case['first'][1]))
+                else:
+                    g = f.sliceDimensions(y=case['first'][0], x=case['first'][1])
+                    kw = dict(newdims=('P2',)) if case['named'] else {}
+                    h = g.sliceDimensions(t=case['second'][0], z=case['second'][1], **kw)
             a = h.variables['A']
             return dict(dims=list(a.dimensions), shape=list(a.shape), lens=[len(h.dimensions[d]) for d in a.dimensions],
                         vals=np.asarray(a[:], dtype='d').ravel().tolist())
@@ -396,12 +422,14 @@ def oracle(case, res):
     """independent statement of the property with numpy.take per axis / explicit zipping"""
     if case.get('kind') == 'twostep':
         if 'err' in res:
+            if case.get('nd'):
+                return 'a pointwise selection with 2-D index arrays and two new dimension names raised %s %s' % (res['err'], res.get('msg'))
             if case['named']:
                 return 'a second pointwise selection with a new dimension name raised %s %s' % (res['err'], res.get('msg'))
             return None if res['err'] == 'ValueError' else 'a second pointwise selection raised %s %s' % (res['err'], res.get('msg'))
         src = np.arange(int(np.prod(case['shape']))).reshape(case['shape'])
-        one = src[:, :, case['first'][0], case['first'][1]]                # (t, z, POINTS)
-        want = one[case['second'][0], case['second'][1], :]                # (second points, POINTS)
+        one = src[:, :, np.array(case['first'][0]), np.array(case['first'][1])]                # (t, z, POINTS) or (t, z, PA, PB)
+        want = one if case.get('nd') else one[case['second'][0], case['second'][1], :]         # (second points, POINTS)
         if len(set(res['dims'])) != len(res['dims']) or res['shape'] != res['lens'] or res['shape'] != list(want.shape) or \
                 res['vals'] != want.astype('d').ravel().tolist():
             return 'two pointwise selections in a row: dimensions %s shape %s (dimension lengths %s) values %s, the cells asked for are %s' % (
